@@ -1707,13 +1707,31 @@ Example par1_create_one_empty_ok :
   fst (par1_repair toy_hash ex_ix true (io_init (fs_remove [[120]; [121]] fs') [])) = (Ok tt, [[120]; [121]]).
 Proof. split; vm_compute; reflexivity. Qed.
 
-(* 3. a stale volume beyond nv IS loaded: an old "a.p03" of another set makes Verify fail *)
+(* 3. a stale volume beyond nv IS loaded: an old "a.p03" of another set (it parses as volume 3, but carries the
+   set hash of the other set) makes Verify fail.  [ex_stale] is the "a.p03" of a three-volume set over one other file. *)
+Definition ex_stale : bytes :=
+  let fsA := io_fs (snd (par1_create toy_hash ex_ix [[120]] 3%Z (io_init [([120], [9; 9])] []))) in
+  match fs_lookup fsA (volume_path ex_ix 3) with Some b => b | None => [] end.
+
 Example par1_stale_volume_refuted :
+  let fs0 := ex_fs0 ++ [(volume_path ex_ix 3, ex_stale)] in
+  let fs' := io_fs (snd (par1_create toy_hash ex_ix ex_files 2%Z (io_init fs0 []))) in
+  (exists v, read_volume toy_hash ex_stale = Ok v /\ v_number v = 3) /\
+  fst (par1_create toy_hash ex_ix ex_files 2%Z (io_init fs0 [])) = Ok tt /\
+  fst (par1_verify toy_hash ex_ix true (io_init fs' [])) = Err EMalformed.
+Proof. split; [eexists; split; vm_compute; reflexivity|split; vm_compute; reflexivity]. Qed.
+
+(* 3'. a stale "a.p03" that does not parse as a volume (the former content of this example) is an unusable
+   volume like a missing one: it is skipped, and Verify is clean with the two volumes of the set *)
+Example par1_stale_unparsable_volume_ignored :
   let fs0 := ex_fs0 ++ [(volume_path ex_ix 3, [1; 2; 3])] in
   let fs' := io_fs (snd (par1_create toy_hash ex_ix ex_files 2%Z (io_init fs0 []))) in
   fst (par1_create toy_hash ex_ix ex_files 2%Z (io_init fs0 [])) = Ok tt /\
-  fst (par1_verify toy_hash ex_ix true (io_init fs' [])) = Err EMalformed.
-Proof. split; vm_compute; reflexivity. Qed.
+  fs_lookup fs' (volume_path ex_ix 3) = Some [1; 2; 3] /\
+  read_volume toy_hash [1; 2; 3] = Err EMalformed /\
+  fst (par1_verify toy_hash ex_ix true (io_init fs' [])) =
+    Ok ({| fc_usable := 2; fc_unusable := 0; fc_pusable := 2; fc_punusable := 0 |}, true).
+Proof. repeat split; vm_compute; reflexivity. Qed.
 
 (* 4. the premise "a lost file is not also a directory": with "x" and "x/z" both in the file map, deleting "x"
    leaves a directory "x", which Repair cannot read past *)
